@@ -453,10 +453,10 @@ def mask_vals(f, maskdef, metakeys=_metakeys):
     mtype = maskdef.split(',')[0]
     mval = ','.join(maskdef.split(',')[1:])
     if mtype == 'where':
-        maskexpr = 'np.ma.masked_where(mask, var[:].view(np.ndarray))'
+        maskexpr = 'np.ma.masked_where(mask, var[...].view(np.ndarray))'
         # mask = eval(mval, None, f.variables)
     else:
-        maskexpr = 'np.ma.masked_%s(var[:], %s)' % (mtype, mval)
+        maskexpr = 'np.ma.masked_%s(var[...], %s)' % (mtype, mval)
     for varkey, var in f.variables.items():
         if varkey not in metakeys:
             try:
